@@ -10,6 +10,7 @@ import CedarVerif.Driver.Ops.Partial
 import CedarVerif.Driver.Ops.NoPanic
 import CedarVerif.Driver.Ops.Ffi
 import CedarVerif.Driver.Ops.Tyck
+import CedarVerif.Driver.Ops.SchemaSyntax
 /-
 Line-protocol driver: one request per line on stdin, one reply per line on stdout.
 Unknown or malformed requests answer `(bad-op)`; the driver never defaults.
@@ -30,7 +31,8 @@ def handlers : List (Sexp → Option String) := [
   Ops.handlePartial,
   Ops.handleNoPanic,
   Ops.handleFfi,
-  Ops.handleTyck
+  Ops.handleTyck,
+  Ops.handleSchemaSyntax
 ]
 
 def handle (x : Sexp) : String :=
